@@ -42,6 +42,8 @@ type tblCase struct {
 	Loader    int    `json:"loader"` // 0 slice, 1 skiplist, 2 map (4-byte keys only), 3 disk
 	ReadChunk int    `json:"read_chunk"`
 	Seed      int64  `json:"seed"`
+	// reader options of the control arm: 0 default (verify on load), 1 verify on read too, 2 verify on read only, 3 none
+	ReadVerify int `json:"read_verify,omitempty"`
 }
 
 type kv struct {
@@ -122,18 +124,19 @@ func tblPairs(c tblCase) []kv {
 
 func tblGen(r *rand.Rand, mode string, thorough bool) tblCase {
 	c := tblCase{
-		NKeys:     pick(r, 0, 1, 2, 3, 7, 20, 60, 150),
-		KeyShape:  r.Intn(3),
-		ValShape:  r.Intn(3),
-		DataComp:  r.Intn(4),
-		IndexComp: r.Intn(4),
-		Bloom:     pick(r, uint64(1), 10, 1000, 100000),
-		WriteBuf:  pick(r, 64, 128, 512, 4096, 1<<20, 4<<20),
-		ReadBuf:   pick(r, 64, 128, 512, 4096, 1<<20),
-		SkipList:  r.Intn(4) == 0,
-		Loader:    r.Intn(4),
-		ReadChunk: pick(r, 0, 0, 1, 5, 100),
-		Seed:      r.Int63(),
+		NKeys:      pick(r, 0, 1, 2, 3, 7, 20, 60, 150),
+		KeyShape:   r.Intn(3),
+		ValShape:   r.Intn(3),
+		DataComp:   r.Intn(4),
+		IndexComp:  r.Intn(4),
+		Bloom:      pick(r, uint64(1), 10, 1000, 100000),
+		WriteBuf:   pick(r, 64, 128, 512, 4096, 1<<20, 4<<20),
+		ReadBuf:    pick(r, 64, 128, 512, 4096, 1<<20),
+		SkipList:   r.Intn(4) == 0,
+		Loader:     r.Intn(4),
+		ReadChunk:  pick(r, 0, 0, 1, 5, 100),
+		Seed:       r.Int63(),
+		ReadVerify: pick(r, 0, 0, 1, 2, 3),
 	}
 	if thorough && r.Intn(4) == 0 {
 		c.NKeys = pick(r, 500, 1000, 2000)
@@ -273,7 +276,16 @@ func tblControl(c *Ctx, tc tblCase, tape *simrt.Tape) (vs []tblV, evals int) {
 		return
 	}
 	w.ReadChunkMax = tc.ReadChunk
-	rd, err := sstables.NewSSTableReader(sstables.ReadBasePath(dir), sstables.ReadWithKeyComparator(skiplist.BytesComparator{}), sstables.ReadBufferSizeBytes(tc.ReadBuf), tblLoader(tc))
+	ropts := []sstables.ReadOption{sstables.ReadBasePath(dir), sstables.ReadWithKeyComparator(skiplist.BytesComparator{}), sstables.ReadBufferSizeBytes(tc.ReadBuf), tblLoader(tc)}
+	switch tc.ReadVerify {
+	case 1:
+		ropts = append(ropts, sstables.EnableHashCheckOnReads())
+	case 2:
+		ropts = append(ropts, sstables.SkipHashCheckOnLoad(), sstables.EnableHashCheckOnReads())
+	case 3:
+		ropts = append(ropts, sstables.SkipHashCheckOnLoad())
+	}
+	rd, err := sstables.NewSSTableReader(ropts...)
 	if err != nil {
 		add("reader-open-error|"+normErr(err), err.Error())
 		return
